@@ -320,6 +320,10 @@ def agg_query_text(case):
             gb.append(f"({gs.expr_text(kx[1])} AS ?{kx[2]})")
     for a in case["aggs"]:
         head.append(f"({agg_text(a)} AS ?{a[0]})")
+    if case.get("derived"):
+        # a later SELECT expression may use the variable of an earlier one
+        dop, dconst = case["derived"]
+        head.append(f"(?{case['aggs'][0][0]} {dop} {gs.term_text(dconst)} AS ?dv)")
     if case.get("hide_keys"):
         head = head[len(case["keys"]):]
     q = f"SELECT {' '.join(head)} WHERE {gs.group_text(case['pattern'])}"
@@ -378,7 +382,8 @@ def run_aggs(case):
             return out
         rvars, rows = res
         knames = [k if isinstance(k, str) else k[2] for k in keys]
-        allv = ([] if case.get("hide_keys") else knames) + [a[0] for a in aggs]
+        derived = case.get("derived")
+        allv = ([] if case.get("hide_keys") else knames) + [a[0] for a in aggs] + (["dv"] if derived else [])
         if rvars != allv:
             out.fail(("group-vars",), f"{q}: {rvars} expected {allv}")
             return out
@@ -412,6 +417,18 @@ def run_aggs(case):
                     del mu[a[0]]
                 else:
                     mu[a[0]] = w
+        if derived:
+            for mu in want:
+                v = mu.get(aggs[0][0])
+                if v is None:
+                    continue
+                try:
+                    w = ref.eval_expr([derived[0], ["var", "_"], ["const", derived[1]]], {"_": concrete(v)}, env)
+                except ref.ExprError:
+                    w = None
+                if w is not None:
+                    mu["dv"] = w
+            out.cls("derived-select-expression")
         if having is not None and having[0] == "key":
             # a condition on a grouping key (no aggregate in it), whether or not the key is projected
             _, kname, op, const = having
@@ -451,6 +468,10 @@ def run_aggs(case):
             wmap, gmap = {kv(m): m for m in want}, {kv(r): r for r in rows}
             for k, wm in wmap.items():
                 gm = gmap[k]
+                if derived and norm(wm.get("dv")) != norm(gm.get("dv")):
+                    out.fail(("select-expression-over-an-earlier-alias", "unbound" if gm.get("dv") is None else "value"),
+                             f"{q}\n data={case['data']['default']}\n group {k}: ?dv = {gm.get('dv')}, expected {wm.get('dv')}")
+                    return out
                 for a in aggs:
                     var, agg, dist = a[0], a[1], a[3]
                     wv, gv = wm.get(var), gm.get(var)
@@ -589,8 +610,11 @@ def agg_cases(draw, tier):
             having = None
         if order:
             order = [o for o in order if o[0] not in exprnames] or None
+    derived = None
+    if aggs[0][1] in ("count*", "count", "sum", "avg") and draw(st.integers(0, 2)) == 0:
+        derived = [draw(st.sampled_from(["+", "*", "-"])), draw(st.sampled_from(gs.LITS[:3]))]
     return {"mode": "aggs", "data": data, "pattern": pat, "keys": keys, "aggs": aggs, "having": having, "order": order, "limit": limit,
-            "hide_keys": anon or (bool(keys) and draw(st.integers(0, 3)) == 0), "anon_keys": anon}
+            "hide_keys": anon or (bool(keys) and draw(st.integers(0, 3)) == 0), "anon_keys": anon, "derived": derived}
 
 
 SUBCHECKS = [Sub("modifiers", lambda tier: cases(tier), run, {"quick": 9000, "thorough": 300000}),
